@@ -314,7 +314,7 @@ def har_model_stage(ctx, rng, thorough, T, B, wfile):
     GET, POST = 'GET', 'POST'
     U = 'https://example.com/h/'
     def ent(url, method=GET, status=200, res=(), req=(('Accept', '*/*'),), body=b'x', b64=None, badb64=False):
-        return dict(url=url, method=method, status=status, res=list(res), req=list(req), body=body, b64=(len(body) % 2 == 1) if b64 is None else b64, badb64=badb64)
+        return dict(url=url, method=method, status=status, res=list(res), req=list(req), body=body, b64=(len(body) % 2 == 1 or any(c >= 0x7f or c < 0x20 for c in body)) if b64 is None else b64, badb64=badb64)
     CT = ('Content-Type', 'text/plain')
     V = ('Variants', 'Accept-Language;en;fr')
     VK1, VK2 = ('Variant-Key', 'en'), ('Variant-Key', 'fr')
@@ -408,6 +408,162 @@ def har_model_stage(ctx, rng, thorough, T, B, wfile):
                         rc2, _, _ = sh([B('dump-bundle'), '-i', outp])
                         rec(ctx, f'c20.har-model-dump-bundle {name} {ver} {ig} {int(with_primary)}', 'accepts' if rc2 == 0 else 'rejects', 'accepts' if (g and g[0] and g[0].startswith('ok ')) else 'rejects')
 
+
+
+RULE += ('; output path = input path (same string, relative vs absolute, ./d/../x, symlink either way, hard link) for sign-bundle signatures-section (signed once and a second time in place) and gen-signedexchange -content/-o: '
+         'exit 0, what is left at the path verifies completely, a refusal leaves the input untouched; gen-signedexchange x 3 versions with signed header blocks of exactly 16383 / 16384 / 16385 / 20000 / 65535 / 65536 / 100000 / '
+         '524287 / 524288 bytes (measured from -dumpHeadersCbor, padding headers adjusted until exact) -> dump-signedexchange -verify accepts; 524289 / 600000: refused or accepted downstream; Signature header values of '
+         '~16376 / 16384 / 16385 / 20000 bytes (long -validityUrl): within the limit accepted, otherwise refused or accepted downstream')
+
+
+def inplace_stage(ctx, T, B, keys, wfile):
+    """F. A tool whose -o names the file it reads (-i / -content). Only `sign-bundle integrity-block` documents that input and output must
+    differ; for the others signing in place is an accepted flag combination and the property's clause applies to what is left at the path:
+    the tool exits 0 and the downstream tool accepts the file (every exchange verified), or the tool refuses and the input is still what it
+    was. `The same file' is a relation between two flag values, not a string: same spelling, relative vs absolute, a path through ./d/..,
+    a symbolic link in either role, a hard link. Deterministic (no draws)."""
+    D = os.path.join(T, 'inplace'); os.makedirs(os.path.join(D, 'site'))
+    tree = {'index.html': b'<html>in place</html>', 'sp ace.txt': b'a file with a space in its name', 'big.bin': bytes(range(256)) * 20, 'empty': b''}
+    for rel, data in tree.items():
+        open(os.path.join(D, 'site', rel), 'wb').write(data)
+    nex = len(tree) + 1             # one exchange per file, plus index.html's redirect
+    kk = keys['ec-pkcs8-p256']
+    certpem, keypem = wfile('inpl-c.pem', kk['cert']), wfile('inpl-k.pem', kk['key'])
+    rc, chainb, _ = sh([B('gen-certurl'), '-pem', certpem, '-ocsp', wfile('inpl-o.der', b'dummy-ocsp')])
+    chain = wfile('inpl-chain.cbor', chainb)
+    unsigned = {}
+    for ver in ('b1', 'b2'):
+        p = os.path.join(D, f'unsigned-{ver}.wbn')
+        rc, _, err = sh([B('gen-bundle'), '-dir', os.path.join(D, 'site'), '-baseURL', 'https://example.com/ip/', '-primaryURL', 'https://example.com/ip/', '-version', ver, '-o', p])
+        if rc != 0:
+            rec(ctx, f'c20.inplace gen-bundle {ver}', 'exit %d %s' % (rc, err.decode()[-100:].strip()), 'exit 0 '); continue
+        unsigned[ver] = open(p, 'rb').read()
+    # (name, -i spelling, -o spelling, set-up) ; cwd = D ; X = the bundle's file name
+    def spellings(X):
+        absX = os.path.join(D, X)
+        return [('same-string-relative', X, X, None),
+                ('same-string-absolute', absX, absX, None),
+                ('relative-in-absolute-out', X, absX, None),
+                ('absolute-in-relative-out', absX, X, None),
+                ('out-through-dot-dot', X, './site/../' + X, None),
+                ('in-through-dot-slash', './' + X, X, None),
+                ('out-is-symlink-to-in', X, 'ln-' + X, lambda: os.symlink(X, os.path.join(D, 'ln-' + X))),
+                ('in-is-symlink-to-out', 'ln-' + X, X, lambda: os.symlink(X, os.path.join(D, 'ln-' + X))),
+                ('out-is-hard-link-of-in', X, 'hl-' + X, lambda: os.link(absX, os.path.join(D, 'hl-' + X)))]
+    case = 0
+    for ver, data in sorted(unsigned.items()):
+        for idx in range(len(spellings('x'))):
+            case += 1
+            X = f'ip{case}.wbn'
+            name, i_sp, o_sp, setup = spellings(X)[idx]
+            open(os.path.join(D, X), 'wb').write(data)
+            if setup: setup()
+            cmd = [B('sign-bundle'), 'signatures-section', '-i', i_sp, '-o', o_sp, '-certificate', chain, '-privateKey', keypem, '-validityUrl', 'https://example.com/validity',
+                   '-miRecordSize', str([4096, 16][case % 2])]
+            for rnd in (1, 2):          # signed in place, then signed in place again (the bundle now has a signatures section)
+                before = open(os.path.join(D, X), 'rb').read()
+                rc5, _, err5 = sh(cmd, cwd=D)
+                after = open(os.path.join(D, X), 'rb').read() if os.path.exists(os.path.join(D, X)) else None
+                op = f'c20.sign-bundle-in-place {ver} {name} round={rnd} -i {i_sp.replace(D, "$D")} -o {o_sp.replace(D, "$D")}'
+                if rc5 != 0 and rnd == 1:
+                    rec(ctx, op, 'exit %d input-untouched=%s %s' % (rc5, after == before, err5.decode()[-100:].strip().split(' ', 2)[-1]), 'exit 0')
+                    break
+                if rc5 != 0:      # signing again with the same certificate is refused (the exchanges already carry a Digest header): a refusal must leave the file alone
+                    rec(ctx, op, 'refused input-untouched=%s' % (after == before), 'refused input-untouched=True')
+                    break
+                rc6, out6, _ = sh([B('dump-bundle'), '-i', o_sp], cwd=D)
+                rec(ctx, op, f'exit 0 dump-bundle: exit {rc6} signed={out6.count(b"[Signed with certificate #0]")} errors={out6.count(b"verification error")}', f'exit 0 dump-bundle: exit 0 signed={nex} errors=0')
+    # integrity-block: the one sub-command that documents "input and output file cannot be the same" -- refused, and the bundle is still there
+    # (only the literal same string: `-o ./x` for `-i x` passes the tool's string comparison and truncates x on the unchanged tree; reported
+    # as an observation, not expected here)
+    if 'b2' in unsigned:
+        edk = wfile('inpl-ed.pem', keys['ed25519-pkcs8']['key'])
+        for name, sp in (('same-string-relative', 'ib-ip.wbn'), ('same-string-absolute', os.path.join(D, 'ib-ip.wbn'))):
+            open(os.path.join(D, 'ib-ip.wbn'), 'wb').write(unsigned['b2'])
+            rc7, _, _ = sh([B('sign-bundle'), 'integrity-block', '-i', sp, '-o', sp, '-privateKey', edk], cwd=D)
+            rec(ctx, f'c20.integrity-block-in-place {name}', ('refused' if rc7 else 'exit 0') + ' input-untouched=%s' % (open(os.path.join(D, 'ib-ip.wbn'), 'rb').read() == unsigned['b2']), 'refused input-untouched=True')
+    # gen-signedexchange reads -content completely before it creates -o: turning a page into its signed exchange in place
+    ck = keys['ec-sec1-p256']
+    c2, k2 = wfile('inpl-sc.pem', ck['cert']), wfile('inpl-sk.pem', ck['key'])
+    rc, chb, _ = sh([B('gen-certurl'), '-pem', c2, '-ocsp', wfile('inpl-so.der', b'dummy-ocsp')])
+    ch2 = wfile('inpl-schain.cbor', chb)
+    for j, (name, c_sp, o_sp) in enumerate([('same-string', 'pageJ.html', 'pageJ.html'), ('out-through-dot-dot', 'pageJ.html', './site/../pageJ.html'), ('relative-in-absolute-out', 'pageJ.html', os.path.join(D, 'pageJ.html'))]):
+        c_sp, o_sp = c_sp.replace('J', str(j)), o_sp.replace('J', str(j))
+        page = b'<html>' + bytes([65 + j]) * 5000 + b'</html>'
+        open(os.path.join(D, f'page{j}.html'), 'wb').write(page)
+        ver = ['1b3', '1b2', '1b1'][j]
+        rc, _, err = sh([B('gen-signedexchange'), '-version', ver, '-uri', f'https://example.com/page{j}.html', '-content', c_sp, '-o', o_sp, '-certificate', c2, '-privateKey', k2,
+                         '-certUrl', 'https://example.com/cert.cbor', '-validityUrl', 'https://example.com/validity', '-miRecordSize', '1000'], cwd=D)
+        op = f'c20.gen-signedexchange-in-place {ver} {name}'
+        if rc != 0:
+            rec(ctx, op, 'exit %d input-untouched=%s' % (rc, open(os.path.join(D, f'page{j}.html'), 'rb').read() == page), 'exit 0'); continue
+        rc2, out2, _ = sh([B('dump-signedexchange'), '-i', o_sp, '-verify', '-cert', ch2], cwd=D)
+        rec(ctx, op, f'exit 0 dump: exit {rc2} valid={b"The exchange has a valid signature" in out2} payload-is-the-page={page in out2}', 'exit 0 dump: exit 0 valid=True payload-is-the-page=True')
+
+
+def sxg_limits_stage(ctx, T, B, keys, wfile):
+    """G. The two length fields of the application/signed-exchange prologue and their documented limits (sigLength <= 16384, headerLength <=
+    524288, b2 and later; b1 leaves them open). gen-signedexchange checks them when it writes (after verifying the exchange in memory),
+    dump-signedexchange when it reads: both tools are walked across BOTH limits with BOTH fields, per version. The header block's size is
+    measured (-dumpHeadersCbor) and the padding adjusted until it is exactly the target, so that 16384 / 16385 / 524288 / 524289 are hit."""
+    D = os.path.join(T, 'limits'); os.makedirs(D)
+    kk = keys['ec-pkcs8-p256']
+    certpem, keypem = wfile('lim-c.pem', kk['cert']), wfile('lim-k.pem', kk['key'])
+    rc, chainb, _ = sh([B('gen-certurl'), '-pem', certpem, '-ocsp', wfile('lim-o.der', b'dummy-ocsp')])
+    chain = wfile('lim-chain.cbor', chainb)
+    content = wfile('lim-content.html', b'<html>limits</html>')
+    outp, hd = os.path.join(D, 'o.sxg'), os.path.join(D, 'hd.cbor')
+
+    def gen(ver, pad, vpad=0):
+        # pad bytes of response-header values in chunks of at most 100000 (one argv string holds at most 128 KiB), Link first as a real site would
+        nchunks = max(1, -(-pad // 100000))
+        cmd = [B('gen-signedexchange'), '-version', ver, '-uri', 'https://example.com/limits.html', '-content', content, '-certificate', certpem, '-privateKey', keypem,
+               '-certUrl', 'https://example.com/cert.cbor', '-validityUrl', 'https://example.com/validity' + ('?' + 'v' * (vpad - 1) if vpad else ''), '-o', outp, '-dumpHeadersCbor', hd]
+        left = pad
+        for c in range(nchunks):
+            n = left // (nchunks - c); left -= n
+            cmd += ['-responseHeader', ('Link: ' if c == 0 else 'X-Pad-%d: ' % c) + ('<https://example.com/a.css>;rel=preload;as=style,' * (n // 48 + 1))[:n]]
+        for f_ in (outp, hd):
+            if os.path.exists(f_): os.remove(f_)
+        rc, _, err = sh(cmd)
+        hlen = os.path.getsize(hd) if os.path.exists(hd) else -1
+        return rc, hlen, err.decode(errors='replace')[-120:].strip()
+
+    def dump_verdict():
+        rc2, out2, err2 = sh([B('dump-signedexchange'), '-i', outp, '-verify', '-cert', chain, '-payload=false'])
+        return 'accepted' if (rc2 == 0 and b'The exchange has a valid signature' in out2) else 'rejected-by-dump-signedexchange exit=%d %s' % (rc2, err2.decode(errors='replace')[-90:].strip().split(' ', 2)[-1])
+
+    for ver in ('1b3', '1b2', '1b1'):
+        for target in (16383, 16384, 16385, 20000, 65535, 65536, 100000, 524287, 524288, 524289, 600000):
+            pad = target - 300
+            rc = hlen = None
+            for _ in range(6):           # the CBOR heads of the padding values change width with their size: converge on the exact block size
+                rc, hlen, err = gen(ver, pad)
+                if hlen == target or hlen < 0: break
+                pad += target - hlen
+            op = f'c20.sxg-header-block-size {ver} headerLength={target}'
+            if hlen != target:
+                ctx.infra.append(f'{op}: could not produce the size (got {hlen})'); continue
+            verdict = 'refused' if rc != 0 else 'emitted-and-' + dump_verdict()
+            if target <= 524288:          # the documented range: must be emitted, and accepted downstream
+                rec(ctx, op, verdict, 'emitted-and-accepted')
+            else:                         # beyond it: refused, or emitted and then also accepted downstream
+                rec(ctx, op, 'consistent' if verdict in ('refused', 'emitted-and-accepted') else verdict, 'consistent')
+        # the Signature header value: ~ 400 bytes + the validity URL. The ECDSA signature's DER length varies by a few bytes from run to run, so
+        # only the target well inside the limit has a fixed expectation; at and beyond the limit the oracle is "refused or accepted downstream".
+        rc, _, err = gen(ver, 10, 0)
+        if rc != 0:
+            ctx.infra.append(f'c20.sxg-signature-value-size {ver}: the plain exchange was not emitted: {err}'); continue
+        d = open(outp, 'rb').read(); ul = -2 if ver == '1b1' else int.from_bytes(d[8:10], 'big'); base_sig = int.from_bytes(d[10 + ul:13 + ul], 'big')
+        for target in (16376, 16384, 16385, 20000):
+            vpad = target - base_sig
+            rc, hlen, err = gen(ver, 10, vpad)
+            verdict = 'refused' if rc != 0 else 'emitted-and-' + dump_verdict()
+            op = f'c20.sxg-signature-value-size {ver} sigLength~{target}'
+            if target <= 16376 and ver != '1b1':
+                rec(ctx, op, verdict, 'emitted-and-accepted')
+            else:
+                rec(ctx, op, 'consistent' if verdict in ('refused', 'emitted-and-accepted') else verdict, 'consistent')
 
 
 def run(ctx):
@@ -661,6 +817,9 @@ def _run(ctx, rng, thorough, T):
                 'exit 0 section-error=0 signed=4 errors=0')
     # ---------------------------------------------------------------- E. gen-signedexchange -> dump-signedexchange -verify
     content, certpem, keypem = sxg_cli_core(ctx, rng, thorough, T, B, keys, wfile)
+    # ---------------------------------------------------------------- F. output path = input path ; G. both prologue length limits
+    inplace_stage(ctx, T, B, keys, wfile)
+    sxg_limits_stage(ctx, T, B, keys, wfile)
     # a b3 response that is not cacheable must be refused by gen-signedexchange (self-verification), not emitted
     outp = os.path.join(T, 'noncache.sxg')
     rc, _, err = sh([B('gen-signedexchange'), '-version', '1b3', '-status', '201', '-uri', 'https://example.com/x', '-content', content, '-certificate', certpem, '-privateKey', keypem,
